@@ -572,3 +572,71 @@ example : noisyDigitalTjm (some [exX 0 0]) 2 .strongSample 1 [.gate2 1 0 1, .sba
     some [.eval 0, .app2 1 0 1, .normalize, .eval 1, .eval 2] := by decide +kernel
 
 end Yaqs.Dissipation
+
+/-!
+# C03, extension — "up to an error that shrinks quadratically when all strengths are scaled down", as a theorem
+
+After a two-qubit gate `digital_tjm` calls `apply_dissipation(state, local_noise, dt = 1, …)` and
+`stochastic_process(state, local_noise, dt = 1, …)`.  Multiply every strength by `s ≥ 0`:
+`digitalDiss Ls s = Π_k expm(-0.5·1·(s·γ_k)·L_k†L_k)` is the dissipation sweep, the lottery weights are `1·(s·γ_k)‖L_kφ‖²`
+(`stepAverage Ls s φ`: the factor `s` sits where C01 has the time step, and cancels in the same way).  Scaling the
+strengths at unit time step *is* the analog step of C01 at time step `s` with Hamiltonian `0` on the post-gate state
+(`c03_noise_step_is_c01_step`), so the first-order consistency and the quadratic local error of `Props/C01.lean` apply:
+the averaged state after gate + noise is `GρG†` at `s = 0` (ideal gate, no noise), its derivative in `s` is the pure
+dissipator `Σ_k γ_k (L_kρ'L_k† − ½{L_k†L_k, ρ'})` on `ρ' = GρG†`, and it differs from the unit-duration Lindblad channel
+`exp(1·(s𝓓))ρ' = lindFlow 0 Ls s ρ'` of the scaled strengths by `O(s²)`.
+-/
+namespace Yaqs.Consistency
+
+open Matrix NormedSpace Yaqs.MasterEq
+
+variable {n : Type} [Fintype n] [DecidableEq n]
+
+/-- **C03.5a `c03_noise_step_is_c01_step`** (`digital_tjm`: `apply_dissipation(…, dt=1)`, `stochastic_process(…, dt=1)`) With all
+    strengths scaled by `s`, the unit-time dissipation sweep equals the analog sweep at time step `s`; it is a twice
+    continuously differentiable no-jump family for the Hamiltonian `0`; and the lottery average with the scaled weights
+    `1·(s·γ_k)‖L_kφ‖²` is the same matrix `pureAverage Ls φ` for every `s ≠ 0` (the scale cancels against the total). -/
+theorem c03_noise_step_is_c01_step (Ls : List (Proc (Matrix n n ℂ))) :
+    (∀ s, digitalDiss Ls s = dissStep Ls s)
+    ∧ IsNoJumpFamily 0 Ls (digitalDiss Ls)
+    ∧ SmoothFamily (digitalDiss Ls)
+    ∧ ∀ (s : ℝ) (φ : n → ℂ), s ≠ 0 → stepAverage Ls s φ = pureAverage Ls φ :=
+  ⟨digitalDiss_eq Ls, noJump_digital Ls, smooth_digital Ls, fun s φ hs => stepAverage_eq Ls s hs φ⟩
+
+/-- **C03.5 `c03_consistency`** For every gate matrix `G` and input vector `ψ` with `Gψ` a unit vector (`G` unitary, `ψ` unit),
+    every list of local processes with strengths `γ_k ≥ 0` in any order: the trajectory average after gate and noise
+    step, as a function of the common scale `s` of the strengths, equals the ideal post-gate state `(Gψ)(Gψ)†` at `s = 0`
+    and has derivative `𝓓ρ' = Σ_k γ_k (L_kρ'L_k† − ½{L_k†L_k, ρ'})` there (`lind 0 Ls`: no Hamiltonian term — the gate is
+    applied exactly and separately), which is the generator of the Lindblad channel of the listed processes. -/
+theorem c03_consistency (G : Matrix n n ℂ) (Ls : List (Proc (Matrix n n ℂ))) (hγ : ∀ p ∈ Ls, 0 ≤ p.gamma)
+    (ψ : n → ℂ) (hψ : star (G *ᵥ ψ) ⬝ᵥ (G *ᵥ ψ) = 1) :
+    pureAverage Ls (digitalDiss Ls 0 *ᵥ (G *ᵥ ψ)) = vecMulVec (G *ᵥ ψ) (star (G *ᵥ ψ))
+    ∧ HasDerivAt (fun s => pureAverage Ls (digitalDiss Ls s *ᵥ (G *ᵥ ψ)))
+        (lind 0 Ls (vecMulVec (G *ᵥ ψ) (star (G *ᵥ ψ)))) 0
+    ∧ lind 0 Ls (vecMulVec (G *ᵥ ψ) (star (G *ᵥ ψ)))
+        = (Ls.map fun p => rateC p.gamma • dissipator (1 / 2 : ℂ) p.op (vecMulVec (G *ᵥ ψ) (star (G *ᵥ ψ)))).sum := by
+  obtain ⟨h0, hd, -⟩ := c01_consistency (noJump_digital Ls) (by simp) hγ (G *ᵥ ψ) hψ
+  refine ⟨h0, hd, ?_⟩
+  unfold lind lindbladian
+  simp
+
+/-- **C03.6 `c03_local_error_quadratic`** ("shrinks quadratically when all strengths are scaled down") Under the same
+    hypotheses there are `C` and `δ > 0` such that for every scale `0 ≤ s ≤ δ` every entry of
+        (trajectory average after gate + noise step)  −  `exp(1·(s𝓓)) (GρG†)`
+    is bounded by `C·s²`; `lindFlow 0 Ls s` is the unit-duration Lindblad channel of the processes with strengths `s·γ_k`. -/
+theorem c03_local_error_quadratic (G : Matrix n n ℂ) (Ls : List (Proc (Matrix n n ℂ))) (hγ : ∀ p ∈ Ls, 0 ≤ p.gamma)
+    (ψ : n → ℂ) (hψ : star (G *ᵥ ψ) ⬝ᵥ (G *ᵥ ψ) = 1) :
+    ∃ C δ : ℝ, 0 < δ ∧ ∀ s, 0 ≤ s → s ≤ δ → ∀ i j,
+      ‖(pureAverage Ls (digitalDiss Ls s *ᵥ (G *ᵥ ψ))
+          - lindFlow 0 Ls s (vecMulVec (G *ᵥ ψ) (star (G *ᵥ ψ)))) i j‖ ≤ C * s ^ 2 :=
+  c01_local_error_quadratic (noJump_digital Ls) (smooth_digital Ls) (by simp) hγ (G *ᵥ ψ) hψ
+
+/-- non-vacuity: `G = X` on one qubit, `ψ = |0⟩`, the processes of the C01 example -/
+example : star (cxX *ᵥ (![1, 0] : Fin 2 → ℂ)) ⬝ᵥ (cxX *ᵥ ![1, 0]) = 1 ∧ ∀ p ∈ cxProcs, 0 ≤ p.gamma := by
+  constructor
+  · simp [cxX, dotProduct, Matrix.mulVec, Fin.sum_univ_two]
+  · intro p hp
+    simp only [cxProcs, List.mem_cons, List.not_mem_nil, or_false] at hp
+    rcases hp with rfl | rfl <;> norm_num
+
+end Yaqs.Consistency
